@@ -328,6 +328,9 @@ fn exec_op(op: &Op, pool: &BTreeMap<String, String>, doc: &HashMap<Cat, Vec<Stri
                 Some(f) => {
                     // the thread's installed Env is the fine-grained one; it serves this walk's files
                     *f.inner.lock().unwrap() = Some(env.clone());
+                    // (no process-wide fallback here: several walks may be in flight on parked threads,
+                    // a helper thread started by solstat could not tell which world is its own; such a
+                    // call is counted as an orphan and the whole chain is discarded)
                     let r = crate::simenv::guarded(|| analyze_dir_cat(cat, "/d", &ps, &mut maps));
                     *f.inner.lock().unwrap() = None;
                     r
@@ -1136,7 +1139,15 @@ pub fn chain_main(ctx: &Ctx, dir: &str, index: u64) -> i32 {
         scenarios.push(gen_scn(&mut rng, &names));
     }
     let chain = Chain { pool, scenarios };
+    // one operation runs at a time in this process: its Env may serve as the process-wide fallback
+    crate::simenv::EXCLUSIVE.store(true, std::sync::atomic::Ordering::SeqCst);
     let r = exec_chain(&chain, &base, &ctx.doc.names);
+    if solstat::verif_shim::orphan_calls() > 0 {
+        // threads started by solstat itself bypassed the simulated file system: nothing this chain
+        // observed can be trusted
+        say!("{}", json!({"unreliable": true, "orphan_calls": solstat::verif_shim::orphan_calls()}));
+        return 0;
+    }
     let mut out = json!({
         "observations": r.observations, "ops": r.ops, "switches": r.switches,
         "same_text_switch": r.same_text_switch, "trace": r.trace, "schedules": r.schedules,
@@ -1206,7 +1217,12 @@ pub fn exec_main(ctx: &Ctx, file: &str) -> i32 {
         }
     };
     let _ = std::fs::remove_dir_all(&dir);
+    crate::simenv::EXCLUSIVE.store(true, std::sync::atomic::Ordering::SeqCst);
     let r = exec_chain(&chain, &base, &ctx.doc.names);
+    if solstat::verif_shim::orphan_calls() > 0 {
+        say!("{}", json!({}));
+        return 0;
+    }
     match r.violation {
         Some((clause, detail, _)) => say!("{}", json!({"violation": {"clause": clause, "detail": detail}})),
         None => say!("{}", json!({})),
@@ -1303,6 +1319,10 @@ impl Property for C15 {
         };
         if v["timed_out"].as_bool() == Some(true) {
             r.count("chains_killed_after_time_limit", 1);
+            return r;
+        }
+        if v["unreliable"].as_bool() == Some(true) {
+            r.count("chains_discarded_because_solstat_started_threads_past_the_seam", 1);
             return r;
         }
         r.evaluations = v["scenarios"].as_u64().unwrap_or(0);
